@@ -2,7 +2,19 @@
    Property theorems only: each is closed by `exact <lemma>`.
    Model: Model/Transpose.v (transpose_sparse_matrix_on_disk and its parallel
    version), Model/Sparse.v (reshaping). "CSC" = the input: ptr has one entry per
-   column + 1, idx holds the row of each stored entry. *)
+   column + 1, idx holds the row of each stored entry.
+   OUTSIDE THE MODEL (audit 4, A6): the WIDTH of the index arrays.  Indices are unbounded naturals here.  The
+   real transpose_sparse_matrix_on_disk_v2 (csc_to_csr_parallel.py) re-bases a row chunk in place,
+   `row_chunk -= indices_slice[0]`, in the dtype of the stored `indices` array: with int8 / uint8 indices and
+   n_processors >= 2 (a slice starting at 128 resp. 200, say) numpy 2 raises OverflowError("Python integer 200
+   out of bounds for int8") in the worker, which surfaces as RuntimeError("One of the processes exited with code
+   1"); n_processors 0 and 1 succeed on the same file and the model answers Ok for all three.  Index arrays
+   narrower than the values they must hold after the slice shift are therefore excluded from every theorem of
+   this file.  Nothing in the package writes such arrays (audit 4): the one `indices` array the package itself
+   hands to this function, sparse_by_pair/{up,down}_gene_idx of the reference-marker file (diff_exp/markers.py),
+   is written with choose_int_dtype((0, n_genes)) - an UNSIGNED type that holds every gene index and hence every
+   slice start, and the shifted values are non-negative - and h5ad files written by anndata / scipy carry int32
+   or int64 indices.  The tie runs the parallel branch on such files only (n_processors in {1, 2, 3}). *)
 From Coq Require Import List Arith ZArith Bool Lia Permutation Sorted.
 From CTM Require Import Base.Sx Model.Sparse Model.Transpose
   Proofs.SparseP Proofs.TransposeP Proofs.TransposeFillP Proofs.TransposeSpecP Proofs.TransposePatternP Proofs.TransposeParP Proofs.SparseReshapeP Proofs.SparseSelectP
